@@ -38,6 +38,11 @@ CLAIMED = {
          'and the same document in 19 encodings x BOM x declaration forms against its UTF-8 rendering.',
          'Trusts the 40-line reference codec, ICU converters and Python codecs (bytes on which ICU and Python disagree are dropped); 11 known findings excluded by construction.',
          '3 C05'),
+ 'C07': ('model-based PBT (Hypothesis): content-model ASTs with Glushkov automaton + Brzozowski derivatives, Python re as second witness, exhaustive child sequences, 34 single-constraint mutations',
+         'Generated DTDs (all content-model shapes incl. non-deterministic ones, ten attribute types x four default kinds, internal/external/PE-split subsets, conditional sections): every child sequence up to length 5-6 '
+         'must be accepted iff it is in the model language; valid-by-construction instances give no validity error, each injected violation gives an error of its class and no fatal; events equal with validation on and off.',
+         'Trusts the M2 model (pbt/dtdmodel.py); edition-ambiguous standalone cases are not generated; 2 known findings excluded by construction.',
+         '3 C07'),
  'C08': ('model-based PBT (Hypothesis): typed schema model, derivative-based particle matcher with counters, re.fullmatch on the expanded model as second witness, exhaustive child sequences',
          'Generated UPA-safe schemas (occurrence ranges, nested groups, all, wildcards, substitution groups, derivation, xsi:type/nil, imports) with all child sequences up to '
          'length 6 per content model, valid-by-construction instances and single-rule mutations; valid <=> zero errors, invalid => validity error of the planted class and '
@@ -64,6 +69,15 @@ CLAIMED = {
          'pyexpat events equal), second serialisation byte-identical, unencodable characters as references or reported, inexpressible content reported; XMLFormatter bytes equal the escape-table model.',
          'Trusts pyexpat/Python codecs and the tree model for built trees; 13 known findings excluded by construction.',
          '3 C12'),
+ 'C13': ('model-based stateful PBT (Hypothesis): operation histories with operands taken modulo the live-node set, Python DOM reference model in lock-step, per-step structural invariants',
+         'Histories of 1-200 DOM Core operations over 1-3 documents (parsed ones with doctype/entities/defaults): after every step the exception code / result equals the model, the structural '
+         'invariants hold (links consistent, <=1 parent, no cycles, uniform ownerDocument, attribute maps) and the canonical dump CRC equals the model; rejected operations leave the tree unchanged.',
+         'Trusts the M7 model (pbt/dommodel.py); implementation-dependent steps are tagged unspecified (invariants only); 10 known findings excluded by construction.',
+         '3 C13'),
+ 'C14': ('model-based stateful PBT (Hypothesis): C13 histories interleaved with live NodeIterators, tag-name lists and Ranges, reference model of DOM Traversal / Range fix-up rules',
+         'After every mutation every live view must equal the model: list contents in document order, iterator reference node and position, range boundary points (valid, ordered, one root), plus C13 invariants.',
+         'Trusts the M7 view model; TreeWalker and range content operations are outside the default domain; 5 known findings excluded by construction.',
+         '3 C14'),
  'C15': ('differential PBT (Hypothesis): operation histories on one parser object vs the same call on a freshly constructed parser, computed inside the executor',
          'Histories of parse / abandoned progressive parse / handler exception / feature change / loadGrammar / pool resets / adoptDocument over colliding documents; every parse and loadGrammar must '
          'give the same canonical event dump (incl. errors and positions) as on a fresh parser with the same features and cached grammars; adopted documents stay intact.',
